@@ -207,6 +207,9 @@ package core
 //@   ensures forall k string :: has(proxyReq.Header, k) ==> old(has(proxyReq.Header, k)) || fwdHeader(k)
 //@   ensures forall k string :: !fwdHeader(k) ==> proxyReq.Header[k] == old(proxyReq.Header[k])
 //@   ensures joinOf(originalReq.Header["X-Forwarded-For"], ", ") != "" ==> len(proxyReq.Header["X-Forwarded-For"]) == 1 && hasPrefix(proxyReq.Header["X-Forwarded-For"][0], joinOf(originalReq.Header["X-Forwarded-For"], ", "))
+// a client-supplied X-Forwarded-Proto / X-Forwarded-Host is left as it was copied (not overwritten)
+//@   ensures hdrGet(originalReq.Header, "X-Forwarded-Proto") != "" ==> proxyReq.Header["X-Forwarded-Proto"] == old(proxyReq.Header["X-Forwarded-Proto"]) && has(proxyReq.Header, "X-Forwarded-Proto") == old(has(proxyReq.Header, "X-Forwarded-Proto"))
+//@   ensures hdrGet(originalReq.Header, "X-Forwarded-Host") != "" ==> proxyReq.Header["X-Forwarded-Host"] == old(proxyReq.Header["X-Forwarded-Host"]) && has(proxyReq.Header, "X-Forwarded-Host") == old(has(proxyReq.Header, "X-Forwarded-Host"))
 
 //@ func CopyHeaders
 //@   property C15
